@@ -25,10 +25,10 @@ def cases(tier):
           5: ['qtreetbl_putobj', 'qtreetbl_getobj', 'qtreetbl_removeobj', 'qtreetbl_clear', 'qtreetbl_lock', 'qtreetbl_unlock']}
     for cont, name in ((3, 'listtbl'), (4, 'hashtbl'), (5, 'tree')):
         for (a, b) in MPAIRS:
-            for n0 in (1, 2):
+            for n0 in ((1,) if (cont == 5 and tier == 'quick') else (1, 2)):
                 for (x, y) in ((a, b), (b, a)) if a != b else ((a, b),):
                     out.append(Case('c13.%s.%s_%s.n%d' % (name, x, y, n0), 'schedmap.c', {'VF_CONT': cont, 'VF_OP1': MOPS[x], 'VF_OP2': MOPS[y], 'VF_N0': n0}, unwind=8,
-                                    unwindset={'put_obj': 4, 'remove_obj': 4, 'remove_min': 4, 'free_objs': 4}, checks='func', timeout=600, funcs=MF[cont],
+                                    unwindset={'put_obj': 4, 'remove_obj': 4, 'remove_min': 4, 'free_objs': 4}, checks='func', timeout=600 if tier == 'quick' else 1800, funcs=MF[cont],
                                     desc='%s: T1=%s overlapped by T2=%s at a solver-chosen scheduling point, %d initial keys; keys/values symbolic' % (name, x, y, n0)))
     return out
 
